@@ -22,7 +22,7 @@ static std::vector<std::vector<double>> kn; static std::vector<float> cf;
 static void table(ST& t){ mk_table(t, ord, kn, cf, 0, 0); for (unsigned d = 0; d < nd; d++) for (unsigned i = 0; i < ord[d]; i++) { t.knots[d][-(int)i - 1] = kn[d][0] - 1 - i; t.knots[d][nk[d] + i] = kn[d].back() + 1 + i; } for (auto& a : aux) t.write_key(a.first.c_str(), a.second.c_str()); }
 static bool same(const ST& a, const ST& b){ if (a.ndim != b.ndim || a.naux != b.naux) return false; for (unsigned d = 0; d < a.ndim; d++) { if (a.order[d] != b.order[d] || a.nknots[d] != b.nknots[d] || a.naxes[d] != b.naxes[d]) return false; if (memcmp(a.knots[d], b.knots[d], 8 * a.nknots[d])) return false; } for (unsigned i = 0; i < a.naux; i++) if (strcmp(a.aux[i][0], b.aux[i][0])) return false; return memcmp(a.coefficients, b.coefficients, 4 * a.get_ncoeffs()) == 0; }
 // returns 0 fine, 3 predicate violated, >= 128 crashed
-static int in_child(int (*fn)(int), int arg){ fflush(stdout); pid_t p = fork(); if (p == 0) { int r = fn(arg); fflush(stdout); _exit(r); } int st = 0; waitpid(p, &st, 0); if (WIFSIGNALED(st)) return 128 + WTERMSIG(st); return WEXITSTATUS(st); }
+static int in_child(int (*fn)(int), int arg){ fflush(stdout); pid_t p = fork(); if (p == 0) { int r = fn(arg); fflush(stdout); _exit(r); } int st = 0; waitpid(p, &st, 0); if (WIFSIGNALED(st)) return 128 + WTERMSIG(st); if (WEXITSTATUS(st) == 77) return 128 + 6; return WEXITSTATUS(st); }
 static char path[] = "/var/tmp/psreplay_state.fits";
 static bool wellformed(const ST& r){ for (unsigned d = 0; d < r.ndim; d++) { if ((long)r.naxes[d] != (long)r.nknots[d] - (long)r.order[d] - 1 || r.naxes[d] < r.order[d] + 1) { printf("returned table: dimension %u has order %u, %llu knots, %llu coefficients\n", d, r.order[d], (unsigned long long)r.nknots[d], (unsigned long long)r.naxes[d]); return false; }
     for (uint64_t i = 0; i < r.nknots[d]; i++) if (!std::isfinite(r.knots[d][i]) || (i && r.knots[d][i] < r.knots[d][i - 1])) { printf("returned table: knots of dimension %u are not finite and non-decreasing\n", d); return false; } } return true; }
@@ -40,11 +40,10 @@ static int allocfail_child(int k){
   try { if (scen == "readfaults") r.read_fits(path); else if (scen == "convolve") r.convolve(cdim, kk, 3); else if (scen == "permute") r.permuteDimensions(perm); else if (scen == "keys") { if (aux.empty()) r.write_key("FRESHKEY", "value"); else r.remove_key(aux.back().first.c_str()); } }
   catch (std::exception& e) { thr = true; }
   fail_at = -1;
-  if (!thr) return 0;
+  if (!thr) return 9;                            // the operation needs fewer than k allocations: the sweep is complete
   if (scen == "readfaults") { if (r.ndim != 0) { printf("allocation #%d failing: failed read left ndim = %u\n", k, r.ndim); return 3; } return 0; }
   printf("allocation #%d failing: ", k);
   if (r.ndim != 0 && !same(pre, r)) { printf("the failed operation left a table that is neither the old one nor empty\n"); return 3; }
-  printf("table unchanged; destroying\n");
   return 0;                                      // destructors run now: double free aborts, seen by the parent
 }
 int main(int argc, char** argv){
@@ -67,13 +66,15 @@ int main(int argc, char** argv){
     else if (v == "knots_missing") { to_ext("KNOTS" + std::to_string(nd - 1)); fits_delete_hdu(f, &hd, &st); }
     else if (v == "knots_short" || v == "knots_long") { to_ext("KNOTS0"); long n = (long)nk[0] + (v == "knots_short" ? -1 : 2); fits_resize_img(f, DOUBLE_IMG, 1, &n, &st); }
     else if (v == "knots_unsorted") { to_ext("KNOTS0"); std::vector<double> k2 = kn[0]; std::swap(k2.front(), k2.back()); long fp = 1; fits_write_pix(f, TDOUBLE, &fp, k2.size(), k2.data(), &st); }
+    else if (v == "knots_nan_first" || v == "knots_ninf_first") { to_ext("KNOTS0"); std::vector<double> k2 = kn[0]; k2[0] = v == "knots_nan_first" ? NAN : -INFINITY; long fp = 1; fits_write_pix(f, TDOUBLE, &fp, k2.size(), k2.data(), &st); }
+    else if (v == "knots_pinf_last") { to_ext("KNOTS" + std::to_string(nd - 1)); std::vector<double> k2 = kn[nd - 1]; k2.back() = INFINITY; long fp = 1; fits_write_pix(f, TDOUBLE, &fp, k2.size(), k2.data(), &st); }
     else if (v == "knots_nan") { to_ext("KNOTS0"); std::vector<double> k2 = kn[0]; k2[1] = NAN; long fp = 1; fits_write_pix(f, TDOUBLE, &fp, k2.size(), k2.data(), &st); }
     else if (v == "extents_short") { to_ext("EXTENTS"); long n = 1; fits_resize_img(f, DOUBLE_IMG, 1, &n, &st); }
     else if (v == "foreign") { for (unsigned d = 0; d < nd; d++) { st = 0; fits_delete_key(f, ("ORDER" + std::to_string(d)).c_str(), &st); } st = 0; fits_delete_key(f, "TYPE", &st); int n = 0; st = 0; fits_get_num_hdus(f, &n, &st); while (n > 1) { fits_movabs_hdu(f, n, &hd, &st); fits_delete_hdu(f, &hd, &st); n--; } }
     st = 0; fits_close_file(f, &st);
     int r = in_child(corrupt_child, 0); if (r == 3) bad = 1; else if (r >= 128) { printf("the process crashed (signal %d) reading the file or destroying the table\n", r - 128); bad = 1; }
   } else {
-    for (int k = 0; k < 64 && !bad; k++) { int r = in_child(allocfail_child, k); if (r == 3) bad = 1; else if (r >= 128) { printf("allocation #%d failing: the process crashed (signal %d) in the operation or when the objects were destroyed\n", k, r - 128); bad = 1; } }
+    for (int k = 0; k < 5000 && !bad; k++) { int r = in_child(allocfail_child, k); if (r == 9) break; if (r == 3) bad = 1; else if (r >= 128) { printf("allocation #%d failing: the process crashed (signal %d) in the operation or when the objects were destroyed\n", k, r - 128); bad = 1; } }
   }
   unlink(path);
   printf(bad ? "REPRODUCED\n" : "HELD\n"); return bad ? 3 : 0;
